@@ -27,12 +27,16 @@ pub fn remove_oscat_comment(source: String) -> String {
                 output.push_str(prelude);
 
                 // Replace the comment internally character-by-character
-                // so that we retain the exact same positions
+                // so that we retain the exact same positions. Positions are
+                // byte offsets so a character is replaced by as many spaces
+                // as it has bytes.
                 for c in source[start + len_key..end].chars() {
                     if c == '\n' {
                         output.push('\n');
                     } else {
-                        output.push(' ');
+                        for _ in 0..c.len_utf8() {
+                            output.push(' ');
+                        }
                     }
                 }
 
